@@ -112,6 +112,10 @@ func histAlphabet() []Config {
 		K2.with("K2+X1", nil, nil, x1),
 		K2.with("K2+X2", nil, nil, x2),
 		K3.with("K3+tagsA", nil, nil, tagsA),
+		// crossed axes: a GOGARBLE scope other than * together with -literals and -ldflags=-X
+		K2.with("K26", nil, []string{"GOGARBLE=" + histMod}, nil),
+		K2.with("K26+X1", nil, []string{"GOGARBLE=" + histMod}, x1),
+		K2.with("K26+X2", nil, []string{"GOGARBLE=" + histMod}, x2),
 	}
 }
 
@@ -132,7 +136,7 @@ func warmConfigs(alpha []Config) []Config {
 }
 
 func checkC06(c *Ctx) {
-	c.SetRule("histories of garble builds over one shared (GOCACHE, GARBLE_CACHE): each step picks a config from {default, -tiny, -literals, -seed=A, -seed=B, GOGARBLE=module, GOGARBLE=subtree, controlflow on, -tags a, -tags b, -ldflags=-X v1/v2 with and without -literals, -seed+-tags} " +
+	c.SetRule("histories of garble builds over one shared (GOCACHE, GARBLE_CACHE): each step picks a config from {default, -tiny, -literals, -seed=A, -seed=B, GOGARBLE=module, GOGARBLE=subtree, controlflow on, -tags a, -tags b, -ldflags=-X v1/v2 with and without -literals, -seed+-tags, GOGARBLE=module with -literals and -X none/v1/v2} " +
 		"and optionally an edit {none, comment, leaf package body, main body, add a file}; after every step the binary's sha256 and stdout are compared with a reference build of the same (config, source version) made in a fresh cache copy that has never seen the program; " +
 		"unchanged-rebuild probes repeat a step and require zero compile/asm actions (hook toolexec.begin events). Histories are PRNG-generated plus the ordered pairs that stress the acknowledged -literals/-ldflags=-X risk. " +
 		"distinct_nontrivial = distinct (previous config -> config, edit) steps that recompiled >=1 package, plus unchanged-rebuild probes.")
@@ -219,6 +223,8 @@ func checkC06(c *Ctx) {
 	histories = append(histories,
 		[]step{{byName["K2"], ""}, {byName["K2+X1"], ""}, {byName["K2+X2"], ""}, {byName["K2"], ""}},
 		[]step{{byName["K2+X1"], ""}, {byName["K0+X1"], ""}, {byName["K2+X2"], ""}, {byName["K0+X2"], ""}, {byName["K2"], "main"}},
+		// the same risk under a GOGARBLE scope that names the module instead of "*"
+		[]step{{byName["K26"], ""}, {byName["K26+X1"], ""}, {byName["K26+X2"], ""}, {byName["K26"], ""}, {byName["K6"], ""}, {byName["K26+X1"], ""}},
 		// edits in a reflecting dependency: the dependants' cached reflection facts must not go stale
 		[]step{{byName["K0"], ""}, {byName["K0"], "leaf"}, {byName["K0"], "deep"}, {byName["K0"], "deepcomment"}, {byName["K0"], "comment"}, {byName["K0"], "main"}, {byName["K0"], "deep"}, {byName["K0"], "file"}},
 	)
